@@ -31,8 +31,18 @@ def design(tier, seed):
     tlc.cleanup(r['workdir'])
     r2 = tlc.run_model('ArithAlgoLemmas', 'ArithAlgoLemmas.cfg', workers=8, tag='C07-algo', xmx='4g')
     tlc.cleanup(r2['workdir'])
+    cfg = 'WeightedSum_quick.cfg' if tier == 'quick' else 'WeightedSum.cfg'
+    r3 = tlc.run_model('WeightedSum', cfg, workers=16, tag='C07-wsum', xmx='4g')
+    tlc.cleanup(r3['workdir'])
+    r = dict(r)
+    r['distinct'] += r3['distinct']
+    r['generated'] += r3['generated']
+    wsum_note = (f'WeightedSum ({cfg}: level-by-level carry propagation of the weighted-sum generators under EVERY grouping order, for every weight '
+                 f'vector up to length {5 if tier == "quick" else 6} over weights 0..2: the weighted sum is preserved at every step, terminal levels are '
+                 f'pairwise distinct, the adders stay within the documented 5n-2m gates, every behaviour terminates): {r3["distinct"]} states, {r3["wall_s"]:.1f}s')
     return {'states': r['distinct'] + r2['distinct'], 'transitions': r['generated'] + r2['generated'],
-            'runs': [f'ArithLemmas (bit-sequence add/shift/mul/compare/sqrt = integer arithmetic, all a,b < 32): {r["distinct"]} states, {r["wall_s"]:.1f}s',
+            'runs': [wsum_note,
+                     f'ArithLemmas (bit-sequence add/shift/mul/compare/sqrt = integer arithmetic, all a,b < 32): {r["distinct"]} states, {r["wall_s"]:.1f}s',
                      f'ArithAlgoLemmas (algorithm-level netlist builders: the MDFA/Stockmeyer bit-count machine keeps its level invariant at every step for '
                      f'n <= 9 in both bases, ends with the minimal number of bits within the documented gate bound, terminates; adders, subtractors, '
                      f'restoring division n <= 4, digit square root n <= 8, plus-one and equality gadgets satisfy their identities on every operand '
